@@ -33,6 +33,14 @@ def shard(ctx, budget_s):
                 ctx.nontrivial("ssh", b, tr)
                 for e in sshghost.check_ssh(a.rep):
                     ctx.violation("ssh:" + e.split(" ")[0], "%s; identification %r over %s" % (e, b[:80], tr), observed=(a.rep or b"").hex()[:100])
+            if rng.random() < 0.2 and lab.identified(b, "tcp") == sigref.SSH and b.endswith(b"\r\n"):
+                # SSH banners are parsed per segment once identified: only cuts inside the signature are constrained
+                cutp = rng.randrange(1, 7)
+                reps = lab.ask_segments(b, [cutp])
+                if reps is not None:
+                    ctx.stats["ssh_segmented"] += 1
+                    if reps[0] is not None or reps[-1] != sshghost.SSH_REPLY:
+                        ctx.violation("ssh:segmented", "identification %r cut at %d (inside the signature): replies %r" % (b[:40], cutp, reps), observed=str(reps)[:200])
             kind = rng.choice(sshghost.SSH_FAULTS)
             bad = sshghost.gen_bad_banner(rng, kind)
             a = lab.ask(bad, tr)
@@ -56,4 +64,4 @@ def shard(ctx, budget_s):
 def run(tier, seed):
     v = core.Verdict(PROP, tier, seed)
     v.merge(core.run_shards(shard, PROP, tier, seed, budget_s=15 if tier == "quick" else 150))
-    return v.finish(RULE, floor=5000, assumptions=ASSUME)
+    return v.finish(RULE, floor=500, assumptions=ASSUME)
